@@ -7,11 +7,11 @@ import (
 // Config is everything about a run that is fixed before the first step. It is
 // drawn from the seed (swarm style) and stored in the replay file.
 type Config struct {
-	Modules    []string `json:"modules"`     // authboss modules, in load order
-	Setups     []string `json:"setups"`      // totp, sms, recovery, expire — in setup order
-	JSON       bool     `json:"json"`        // JSON bodies + API responses; else forms + redirects
-	UseUsername bool    `json:"use_username"`
-	Mount      string   `json:"mount"`
+	Modules     []string `json:"modules"` // authboss modules, in load order
+	Setups      []string `json:"setups"`  // totp, sms, recovery, expire — in setup order
+	JSON        bool     `json:"json"`    // JSON bodies + API responses; else forms + redirects
+	UseUsername bool     `json:"use_username"`
+	Mount       string   `json:"mount"`
 
 	MailNoGoroutine bool `json:"mail_no_goroutine"`
 	RecoverLogin    bool `json:"recover_login"`
@@ -34,10 +34,10 @@ type Config struct {
 
 	// password rule for register / recover_end
 	PwMinLen, PwMinUpper, PwMinLower, PwMinNum, PwMinSym int
-	PwAllowSpace                                          bool
+	PwAllowSpace                                         bool
 
-	NAccounts int   `json:"n_accounts"`
-	NBrowsers int   `json:"n_browsers"`
+	NAccounts        int  `json:"n_accounts"`
+	NBrowsers        int  `json:"n_browsers"`
 	WholeSecondClock bool `json:"whole_second_clock"`
 
 	// Accounts pre-provisioned by the harness before the first step.
